@@ -63,6 +63,11 @@ TEMPLATES = {
                          '<p tal:content="python: L(2)">z</p>', 3),
 }
 
+# other line endings (outside XML mode they are read as line breaks and reported as such)
+TEMPLATES['crlf'] = (TEMPLATES['multiline'][0].replace('\n', '\r\n') + '\r\n<i tal:content="L(3)">.</i>', 4)
+TEMPLATES['cr'] = (TEMPLATES['sites5'][0].replace('\n', '\r') + '\r\r<b>${L(6)}</b>', 7)
+TEMPLATES['crlf-xml'] = ('<?xml version="1.0"?>\r\n' + TEMPLATES['sites5'][0].replace('\n', '\r\n'), 6)
+
 # the failing *expression* is the whole expression text the evaluation point belongs to
 EXPR_OVERRIDE = {'guards': {1: 'range(L(1))', 2: 'not L(2)'}, 'string-structure': {2: 'python: L(2)'}}
 
@@ -180,7 +185,9 @@ def prepare(cfg):
         STATE['tpl'] = PageTemplate(text)
         STATE['n'] = n
         ov = EXPR_OVERRIDE.get(name, {})
-        STATE['expect'] = {k: [('<string>', ov.get(k, 'L(%d)' % k)) + locate(text, ov.get(k, 'L(%d)' % k))]
+        # outside XML mode CR and CRLF are read as line breaks (documented), positions refer to that reading
+        seen = text if text.startswith('<?xml') else text.replace('\r\n', '\n').replace('\r', '\n')
+        STATE['expect'] = {k: [('<string>', ov.get(k, 'L(%d)' % k)) + locate(seen, ov.get(k, 'L(%d)' % k))]
                            for k in range(n)}
         if name == 'multiline':
             pass
